@@ -149,12 +149,9 @@ Definition in_domain (c : bcase) : bool :=
 
 (* ------------------------------------------------------------------------------------------ *)
 Definition final_model (c : bcase) : bstate := fst (fst (brun (bbase c) (bh_ops c) [])).
-(* D08: finish_module asserts functions.len() == num_local_functions + imports.num_funcs, false after any
-   successful convert_local_fn_to_import *)
-Fixpoint after_b (p q : bop -> bool) (h : list bop) : bool :=
-  match h with [] => false | o :: h' => (p o && existsb q h') || after_b p q h' end.
-Definition is_l2i (o : bop) := match o with BLocalToImport _ _ => true | _ => false end.
-Definition known_D08 (c : bcase) : bool := after_b is_l2i is_build (bh_ops c).
+(* D08 (finish_module panicked after any successful convert_local_fn_to_import) is repaired: the conversion takes one
+   off num_local_functions, the balance the assertion checks is kept (BuildProofs.brun_wfb / build_succeeds); the class
+   is gone.  A finish_module that panics is still inside the domain and a failure. *)
 (* D02: import-section order and index order of the function imports disagree *)
 Definition known_D02 (c : bcase) : bool :=
   match index_space (m_f (b_m (final_model c))) with
@@ -168,7 +165,7 @@ Definition K (n : N) (p : bcase -> bool) : N * (bcase -> bool) := (n, p).
 Definition cls (c : bcase) (l : list (N * (bcase -> bool))) : list N :=
   flat_map (fun kp : N * (bcase -> bool) => if snd kp c then [fst kp] else []) l.
 Definition verdict12 (c : bcase) : Util.verdict :=
-  (agree c, in_domain c, holds c, cls c [K 8 known_D08; K 2 known_D02]).
+  (agree c, in_domain c, holds c, cls c [K 2 known_D02]).
 Definition report_C12 := run_report verdict12.
 
 (* cases whose observation is the model's own output (refutation witnesses, non-vacuity examples) *)
